@@ -511,9 +511,9 @@ class RefModule:
         if rv.kind == "module":
             self.trainables = []
             return
-        # Through a view: the trainables *in view* are removed.  Asserted only where that is well defined in the library:
-        # channel and synapse parameters (the view filter of the library ignores every other key), and parameter groups
-        # that lie entirely inside or entirely outside the view.
+        # Through a view: the trainables *in view* are removed, for every key (compartment and synaptic).  A parameter
+        # shared by rows inside and outside the view survives with its value, for the rows outside only (F24); how the
+        # library splits the survivors into list entries is its own business ("split" makes conform compare flattened).
         new = []
         for t in self.trainables:
             if t["key"] in self.cols:
@@ -522,16 +522,18 @@ class RefModule:
                 inview = set(rv.E)      # synaptic parameters and states
             else:
                 raise Unspec("view-level delete_trainables with a trainable of an unknown column")
-            groups, vals = [], []
+            groups, vals, split = [], [], bool(t.get("split"))
             for g, v in zip(t["groups"], t["vals"]):
-                n_in = sum(1 for r_ in g if r_ in inview)
-                if n_in == 0:
-                    groups.append(g)
+                keep = [r_ for r_ in g if r_ not in inview]
+                if keep:
+                    groups.append(keep)
                     vals.append(v)
-                elif n_in != len(g):
-                    raise Unspec("view-level delete_trainables with a parameter group only partly in view")
+                    split = split or len(keep) != len(g)
             if groups:
-                new.append({"key": t["key"], "groups": groups, "vals": vals})
+                e = {"key": t["key"], "groups": groups, "vals": vals}
+                if split:
+                    e["split"] = True
+                new.append(e)
         self.trainables = new
 
     def write_trainables(self, values, skip_absent=False):
@@ -610,6 +612,9 @@ class RefModule:
                 seg = [total / n] * n
             elif col == "radius" and self.swc:
                 seg = list(direct_radius) if direct_radius is not None else [NAN] * n
+            elif col == "v":
+                # the only column the library lets differ within the branch: new rows show the average (documented)
+                seg = [sum(vals[start:start + old_k]) / old_k] * n
             else:
                 # mean over identical values (may differ by 1 ulp from v0; compared with tol_tab)
                 seg = [v0] * n
